@@ -1,10 +1,11 @@
 #!/bin/bash
-# usage: verify_round.sh <out-root> <round-tag> <property>...   (confirms <out-root>/<P>/m{1,2,3} as <P>-<tag>m<k>)
+# usage: [RESULTS=file] verify_round.sh <out-root> <round-tag> <property>...   (confirms <out-root>/<P>/m{1..4} as <P>-<tag>m<k>)
 root=$1; tag=$2; shift 2
+res=${RESULTS:-/tmp/vw2_results.jsonl}
 for P in "$@"; do
   for k in 1 2 3 4; do
     d=$root/$P/m$k
     [ -f $d/patch.diff ] || continue
-    python3 /verif/tools/verify_seeded.py $d $P-${tag}m$k $P </dev/null >> /tmp/vw2_results.jsonl 2>>/tmp/vw2_errors.txt
+    python3 /verif/tools/verify_seeded.py $d $P-${tag}m$k $P </dev/null >> $res 2>>${res%.jsonl}_errors.txt
   done
 done
